@@ -56,6 +56,24 @@ Theorem gen_probe_and_sanity_are_the_model :
 Proof. repeat split; reflexivity. Qed.
 Print Assumptions gen_probe_and_sanity_are_the_model.
 
+(* the probe loop of the model is the loop of the source with the source's line, answer and timeouts: the first wait
+   (0.2 s = 205 ticks, the value the models init_model / subshell_sim_model pass to init_shell) and 3 s for every retry *)
+Theorem gen_probe_loop_is_the_model :
+  GEN_PROBE_FIRST_TMO = 205%Z /\
+  forall f t sts c,
+    wait_for_shell (S f) t sts c =
+    match line_nrb GEN_PROBE sts c with
+    | (Ret _, c1, sts1) =>
+        match expect [SLit GEN_PROBE_ANSWER] (Some t) c1 with
+        | (Ret _, c2) => (IOk, c2, sts1)
+        | (ETimeout, c2) => wait_for_shell f GEN_PROBE_RETRY_TMO sts1 c2
+        | (e, c2) => (IErr (lift_err e), c2, sts1)
+        end
+    | (e, c1, sts1) => (IErr e, c1, sts1)
+    end.
+Proof. split; [reflexivity|]. intros f t sts c. reflexivity. Qed.
+Print Assumptions gen_probe_loop_is_the_model.
+
 (* the first line _init_shell sends is the PS1 line of the model; every later line is free of black-listed bytes
    (so the model's precondition "the configuration lines pass the black-list" holds for the lines of the source) *)
 Theorem gen_init_lines_are_the_model :
